@@ -687,7 +687,15 @@ def run(repo, rep, tier):
             rep.finding(r6, f.qualname, '_open_response', 'no-register',
                         MAIN, f.node.lineno, 'no call of _open_response')
             continue
-        lit = const_str(reg.args[2])
+        pt = reg.args[2]
+        if isinstance(pt, ast.Name):
+            # a local bound once to the literal
+            defs_ = [a_.value for a_ in walk_no_nested(f.node)
+                     if isinstance(a_, ast.Assign) and
+                     len(a_.targets) == 1 and norm(a_.targets[0]) == pt.id]
+            if len(defs_) == 1:
+                pt = defs_[0]
+        lit = const_str(pt)
         # dead site: preceded (dominated) by a call to a method that never
         # returns
         dead = None
